@@ -101,4 +101,4 @@ ROUTER_TRUST = [
 ]
 
 
-RR_RULE = '(rr) histories of the real reqrep::Topic future: 4-80 random steps of {poll, queue a requestor (sink+stream), queue a replier, fire a kept waker, close the channel}; requestor streams yield requests with forged / junk / absent routing tags, colliding req_ids and non-message frames; the mock replier answers received requests out of order and emits replies with missing, unknown (>= 10^6), malformed or unsolicited tags and non-message frames; replier registrations arrive in bursts (0-3 extra repliers); per-case answer profile as for (ps); final phase quiesce|close|none under the wake-driven executor; one drained history in three (every stream ended, including that of the bound replier) ends with a late replier that must become the bound one; one case in twelve is a burst (hundreds of frames ready at once, every sink accepting); non-trivial = history with at least one Pending or Err answer from a sink'
+RR_RULE = '(rr) histories of the real reqrep::Topic future: 4-80 random steps of {poll, queue a requestor (sink+stream), queue a replier, fire a kept waker, close the channel}; requestor streams yield requests with forged / junk / absent routing tags, colliding req_ids and non-message frames; the mock replier answers received requests out of order and emits replies with missing, unknown (>= 10^6), malformed or unsolicited tags and non-message frames; replier registrations arrive in bursts (0-3 extra repliers); per-case answer profile as for (ps); final phase quiesce|close|none under the wake-driven executor; one drained history in three (every stream ended, including that of the bound replier) ends with a late replier that must become the bound one; mock streams are fused (End for ever after their end); one case in twelve is a burst (hundreds of frames ready at once, every sink accepting); non-trivial = history with at least one Pending or Err answer from a sink'
